@@ -661,3 +661,11 @@ pub fn describe(m: &Msg) -> String {
     }
     s
 }
+
+/// buckets record types for outcome-class strings: the types the library treats specially, else 65535
+pub fn type_bucket(t: u16) -> u16 {
+    match t {
+        1 | 2 | 5 | 6 | 12 | 15 | 16 | 28 | 39 | 41 | 43 | 99 => t,
+        _ => 65535,
+    }
+}
